@@ -94,6 +94,11 @@ func scenarios() []scenario {
 		{Name: "S", Expr: peg.Action(0, peg.Seq(peg.Label("v", peg.Seq(peg.Ref("A"), peg.Star(peg.Seq(lit(","), peg.Ref("A"))))), peg.Not(peg.Any())))},
 		{Name: "A", Expr: peg.Recover(peg.Choice(lit("a"), peg.Throw("l")), peg.Action(0, peg.Seq(peg.Label("j", peg.Plus(peg.Cls(false, false, "b-d"))), peg.AndCode(0))), "l")}}})
 	out = append(out, scenario{"s12-recovery-binds-label", g12, core.Gen{}, script(g12, 0), []call{{"a,bcd", rtapi.RunOpts{}}, {"ddb,a", rtapi.RunOpts{}}}})
+	// s13: a class with a Unicode class tested against multi-byte runes that are letters in one call
+	// and symbols in the other (what a matcher node remembers must not be shared between calls)
+	g13 := prep(&peg.Grammar{Rules: []*peg.Rule{{Name: "S", Expr: peg.Action(0, peg.Seq(peg.Label("v", peg.Plus(peg.Choice(peg.Action(0, peg.Plus(peg.Cls(false, false, `\pL`))), peg.Cls(true, false, "a")))), peg.Not(peg.Any())))}}})
+	out = append(out, scenario{"s13-unicode-class-multibyte", g13, core.Gen{}, script(g13, 0), []call{{"é€é€", rtapi.RunOpts{}}, {"é€é€", rtapi.RunOpts{}}}})
+	out = append(out, scenario{"s14-unicode-class-multibyte-optimized", g13, core.Gen{Optimize: true, BasicLatin: true}, script(g13, 0), []call{{"€λ€λ", rtapi.RunOpts{}}, {"λ€€λ", rtapi.RunOpts{}}}})
 	out = append(out, scenario{"s8-three-calls", g1, core.Gen{}, script(g1, 0), []call{{"a", rtapi.RunOpts{InitState: true}}, {"b", rtapi.RunOpts{}}, {"", rtapi.RunOpts{InitState: true}}}})
 	return out
 }
